@@ -23,8 +23,9 @@ EXPLANATION = (
     "`not d.called` facts at each fire site, dominance of early returns by a deliver-to-all call, and the "
     "exhaustion arm. A success carrying a bare exception object, an unguarded second fire, or an exit that forgets "
     "Deferreds each break the property for a concrete schedule (witness in each report)."
+    " Also: a failure of the send stage of a batch must reach every caller of that batch before a stage absorbs it (R8, known finding F40); the rules find the handler's helpers by role, nested or lifted out."
 )
-SHARED = [('C07', ['R5'], 'every payload handed to the client comes back answered or on the failed list, so every send is delivered a result or retried'), ('C09', ['R3'], 'the reply to a retried payload is delivered to the sends it belongs to (the retry handler gets the table of this attempt)'), ('C19', ['R4'], 'nothing is dispatched, and no send is left pending, once stop() has begun'), ('C09', ['R2'], 'the acknowledged request carries exactly the submitted messages, keys and order'), ('C11', ['R1'], 'a send that expects no reply still completes or fails within the client timeout'), ('C19', ['R2'], 'queue accounting: a queued send is eventually dispatched, so its Deferred fires')]
+SHARED = [('C09', ['R1'], 'sends made while a batch is in flight are dispatched once it has resolved'), ('C04', ['R3'], 'the acknowledged request contains exactly the keys and values that were sent (null and empty kept apart)'), ('C09', ['R5'], 'an unroutable topic fails the send: every round of the metadata wait counts against the attempt limit'), ('C07', ['R5'], 'every payload handed to the client comes back answered or on the failed list, so every send is delivered a result or retried'), ('C09', ['R3'], 'the reply to a retried payload is delivered to the sends it belongs to (the retry handler gets the table of this attempt)'), ('C19', ['R4'], 'nothing is dispatched, and no send is left pending, once stop() has begun'), ('C09', ['R2'], 'the acknowledged request carries exactly the submitted messages, keys and order'), ('C11', ['R1'], 'a send that expects no reply still completes or fails within the client timeout'), ('C19', ['R2'], 'queue accounting: a queued send is eventually dispatched, so its Deferred fires')]
 ASSUMPTIONS = [
     "Twisted: Deferred.callback(x) with x not a Failure is a success; callback(Failure) behaves as errback",
     "KafkaClient.send_produce_request fires with a list of ProduceResponse (possibly empty/None with acks=0) or fails",
@@ -253,7 +254,7 @@ def run(ctx):
                     where(g, lp), "cancelling one dispatched send makes later sends of the same batch and partition never get their result")
 
     # ---- R4 early exits deliver to all
-    r = ctx.rule("R4", "every return before the per-response loop is dominated by a deliver-to-all call", 2, "B")
+    r = ctx.rule("R4", "every return before the per-response loop is dominated by a deliver-to-all call", 3, "B")
     loops = [n for n in cf.nodes if n.kind == "for" and isinstance(n.stmt.iter, ast.Name) and n.stmt.iter.id == rp]
     need(len(loops) == 1, "per-response loop over %r not found" % rp)
     loop = loops[0]
@@ -281,6 +282,35 @@ def run(ctx):
     partial = [n for n in ch_.nodes if starts_ and (n.id in starts_ or ch_.dominates(starts_, n.id))]
     noack_deliver = [n for n in partial if ("self.req_acks == PRODUCER_ACK_NOT_REQUIRED", True) in fh_[n.id] and any(
         call_name(c) == deliver.name and len(c.args) >= 2 and isinstance(c.args[1], ast.Constant) and c.args[1].value is None for c in n.calls())]
+    # ... and exactly those: the failed list holds (payload, failure) pairs, so the test that spares the failed ones has
+    # to look at the first component of each pair (`p not in failed_list` compares a payload with tuples: always true)
+    def _spares_failed(n_):
+        for t_, lab_ in ch_.control_deps_transitive(n_.id):
+            if t_.kind != "test":
+                continue
+            for x in ast.walk(t_.stmt.test):
+                if isinstance(x, (ast.GeneratorExp, ast.ListComp, ast.SetComp)) and isinstance(x.generators[0].target, ast.Tuple) and len(x.generators[0].target.elts) == 2:
+                    first = unparse(x.generators[0].target.elts[0])
+                    if any(isinstance(y, ast.Name) and y.id == first for y in ast.walk(x.elt)):
+                        return True
+                if isinstance(x, ast.Call):
+                    # a predicate helper that walks the pairs and compares the first component
+                    g_ = prog.resolve_callable(hsr, x.func)
+                    if g_ is not None:
+                        for lp_ in [y for y in ast.walk(g_.node) if isinstance(y, (ast.For, ast.comprehension)) and isinstance(y.target, ast.Tuple) and len(y.target.elts) == 2]:
+                            first = unparse(lp_.target.elts[0])
+                            scope_ = lp_ if isinstance(lp_, ast.For) else g_.node
+                            if any(isinstance(y, ast.Compare) and any(isinstance(z, ast.Name) and z.id == first for z in ast.walk(y)) for y in ast.walk(scope_)):
+                                return True
+                if isinstance(x, ast.Compare) and len(x.ops) == 1 and isinstance(x.ops[0], (ast.In, ast.NotIn)) and isinstance(x.comparators[0], ast.Name):
+                    og_ = value_origins(ch_, t_.id, x.comparators[0], params=hsr.params) or []
+                    if og_ and all(isinstance(e_, (ast.ListComp, ast.SetComp, ast.GeneratorExp)) and isinstance(e_.generators[0].target, ast.Tuple) for _d, e_ in og_):
+                        return True
+        return False
+    r.check(bool(noack_deliver) and all(_spares_failed(n_) for n_ in noack_deliver), "%s#no-ack-completion-spares-the-failed" % hsr.qname,
+            "the sends completed at once on a partial failure without acknowledgements are not selected by comparing their payload with the "
+            "payloads (first components) of the failed list", where(hsr, noack_deliver[0].stmt if noack_deliver else hsr.node),
+            "acks=0, one broker write fails: the failed payload is reported done at once and then re-sent; a final failure is swallowed")
     r.check(bool(partial) and bool(noack_deliver), "%s#no-ack-partial-failure-completes-the-rest" % hsr.qname,
             "with acknowledgements disabled, a partial failure does not complete the sends whose payloads were handed to their broker",
             where(hsr, partial[0].stmt if partial and partial[0].stmt is not None else hsr.node),
